@@ -157,4 +157,58 @@ theorem znOps_refines (hN : 1 < N) : OpsRel (Rel N) (znOps N) (addOps (encU N)) 
         exact Additive.toMul.injective (Units.ext this)
       simp [h, this]
 
+
+/-! ## the same refinement onto any subgroup of the units (e.g. the quadratic residues, in which
+an honest key and every `A` live and on which the issuer's `e⁻¹ mod p'q'` is an inverse) -/
+
+/-- `x` is the reduced representative of the element `u` of the subgroup `S` -/
+def RelS (N : ℕ) (S : AddSubgroup (U N)) (x : Int) (u : S) : Prop := Rel N x (u : U N)
+
+noncomputable def encS (N : ℕ) (S : AddSubgroup (U N)) (u : S) : ByteArray := encU N (u : U N)
+
+theorem relS_unique [NeZero N] {S : AddSubgroup (U N)} {x y : Int} {u : S}
+    (hx : RelS N S x u) (hy : RelS N S y u) : x = y := rel_unique hx hy
+
+theorem znOps_refines_sub (hN : 1 < N) (S : AddSubgroup (U N)) :
+    OpsRel (RelS N S) (znOps N) (addOps (encS N S)) := by
+  have h := znOps_refines hN
+  refine ⟨?_, ?_, ?_, ?_, ?_, ?_⟩
+  · intro a a' b b' ha hb
+    exact h.mul (a' := (a' : U N)) (b' := (b' : U N)) ha hb
+  · intro a a' e ha
+    have := h.pow (a' := (a' : U N)) e ha
+    show ORel (RelS N S) ((znOps N).pow a e) (.ok (e • a'))
+    cases hp : (znOps N).pow a e with
+    | ok y =>
+      rw [hp] at this
+      have hy : Rel N y (e • (a' : U N)) := this
+      show Rel N y ((e • a' : S) : U N)
+      rw [AddSubgroup.coe_zsmul]; exact hy
+    | err => rw [hp] at this; exact absurd this (by simp [ORel, addOps])
+    | panic => rw [hp] at this; exact absurd this (by simp [ORel, addOps])
+  · intro a a' ha
+    have := h.inv (a' := (a' : U N)) ha
+    show ORel (RelS N S) ((znOps N).inv a) (.ok (-a'))
+    cases hp : (znOps N).inv a with
+    | ok y =>
+      rw [hp] at this
+      have hy : Rel N y (-(a' : U N)) := this
+      show Rel N y ((-a' : S) : U N)
+      rw [AddSubgroup.coe_neg]; exact hy
+    | err => rw [hp] at this; exact absurd this (by simp [ORel, addOps])
+    | panic => rw [hp] at this; exact absurd this (by simp [ORel, addOps])
+  · show Rel N 1 ((0 : S) : U N)
+    rw [AddSubgroup.coe_zero]; exact rel_one hN
+  · intro a a' ha
+    exact h.enc (a' := (a' : U N)) ha
+  · intro a a' b b' ha hb
+    have := h.beq (a' := (a' : U N)) (b' := (b' : U N)) ha hb
+    show (a == b) = decide (a' = b')
+    have h2 : (a == b) = decide ((a' : U N) = (b' : U N)) := this
+    rw [h2]
+    by_cases hab : a' = b'
+    · subst hab; simp
+    · have : (a' : U N) ≠ (b' : U N) := fun hc => hab (Subtype.ext hc)
+      simp only [hab, this, decide_false]
+
 end CL.Zn
